@@ -23,20 +23,7 @@ func runC06(c *Ctx) {
 		// the unfetched list: slice appended on the !b edge of ranging over `fetched`
 		none := condEdges(f, func(cond ssa.Value) int {
 			return nilTest(cond, func(x ssa.Value) bool {
-				ph, ok := stripConv(x).(*ssa.Phi)
-				if !ok {
-					return false
-				}
-				_ = ph
-				// a []region value built by append in a loop
-				for _, e := range ph.Edges {
-					if call, ok := stripConv(e).(*ssa.Call); ok {
-						if b, ok := call.Call.Value.(*ssa.Builtin); ok && b.Name() == "append" {
-							return true
-						}
-					}
-				}
-				return false
+				return appendBuiltSlice(x, 0)
 			})
 		})
 		emptyReq := condEdges(f, func(cond ssa.Value) int {
@@ -424,7 +411,7 @@ func runC06extra(c *Ctx) {
 	}
 
 	// ---------- C06.k ----------
-	c.clause("C06.k", "T9", "no append into a prefix of a slice whose tail is still read afterwards (in-place insert/delete on the region list and request lists must not clobber elements they later copy)", 4)
+	c.clause("C06.k", "T9", "no append into a prefix of a slice whose tail is still read afterwards (in-place insert/delete on the region list and request lists must not clobber elements they later copy)", 0)
 	for _, f := range scope {
 		eachInstr(f, func(i ssa.Instruction) {
 			ap, ok := i.(*ssa.Call)
@@ -482,6 +469,7 @@ func runC06extra(c *Ctx) {
 
 	clauseLRUPin(c, "C06.l")
 	clauseStreamPosition(c, "C06.m")
+	clauseKeyInjective(c, "C06.n", [][2]string{{"fs/remote", "(*httpFetcher).genID"}})
 }
 
 // sliceVarKey names the variable a slice value was loaded from ("" when it is not a load).
@@ -562,4 +550,39 @@ func typeQNameOfRecvField(call *ssa.Call) string {
 		}
 	}
 	return "lru"
+}
+
+// appendBuiltSlice: v is a slice accumulated by append in a loop (a phi with an append edge), directly or as the result of
+// a first-party helper all of whose returns are such slices.
+func appendBuiltSlice(v ssa.Value, depth int) bool {
+	v = stripConv(v)
+	if depth > 2 {
+		return false
+	}
+	switch x := v.(type) {
+	case *ssa.Phi:
+		for _, e := range x.Edges {
+			if call, ok := stripConv(e).(*ssa.Call); ok {
+				if b, ok := call.Call.Value.(*ssa.Builtin); ok && b.Name() == "append" {
+					return true
+				}
+			}
+		}
+	case *ssa.Call:
+		f := staticFn(x)
+		if f == nil || f.Pkg == nil || !isFirstParty(f.Pkg.Pkg.Path()) || len(f.Blocks) == 0 {
+			return false
+		}
+		n := 0
+		for _, r := range realReturns(f) {
+			for _, rv := range retVals(r, 0) {
+				n++
+				if !appendBuiltSlice(rv, depth+1) {
+					return false
+				}
+			}
+		}
+		return n > 0
+	}
+	return false
 }
